@@ -181,6 +181,10 @@ func (v *Vue) evalBoundAttribute(ctx VueContext, attrName, expr string) (any, er
 		if result, err := v.exprEval.Eval(expr, v.exprEnv(ctx)); err == nil && result != nil {
 			return result, nil
 		}
+		// !x on a value that is not a boolean, as in a condition
+		if strings.HasPrefix(expr, "!") {
+			return v.evalNot(ctx, expr), nil
+		}
 	}
 	return "", nil
 }
@@ -245,6 +249,10 @@ func (v *Vue) parseObjectPairs(ctx VueContext, content string) ([]string, []stri
 
 		// Try to resolve as expression first (handles literals and expressions)
 		val, err := v.exprEval.Eval(valueExpr, ctx.stack.EnvMap())
+		if err != nil && strings.HasPrefix(valueExpr, "!") {
+			// !x on a value that is not a boolean, as in a condition
+			val, err = v.evalNot(ctx, valueExpr), nil
+		}
 		if err != nil {
 			// Fall back to stack resolution for variable references
 			var ok bool
